@@ -49,10 +49,40 @@ class StubPool:
     def submit(self, fn):
         run = ExecRun(self.world, self.worker_name, fn)
         self.world.exec_runs[self.worker_name] = run
+        self.world.exec_all.append(run)
         return run.future
 
     def shutdown(self, *a, **k):
         pass
+
+
+class HandlerBlocked(BaseException):
+    """An actor handler waits (without timeout) for an executor that will never finish: the actor thread is blocked for good."""
+
+
+class HarnessFuture(concurrent.futures.Future):
+    """The future Worker.pool.submit() returns. A handler that WAITS for a running executor (result()/exception() without
+    timeout) blocks the actor thread while the executor thread goes on: the harness lets the executor run until it is done
+    (world.block_hook) - or diagnoses that it never will be (HandlerBlocked)."""
+
+    world = None
+    run = None
+
+    def _wait(self, timeout):
+        if self.done() or (timeout is not None and timeout <= 0):
+            return
+        hook = self.world.block_hook if self.world is not None else None
+        if hook is None:
+            raise HandlerBlocked("a handler waits for a running executor (%s)" % (self.run.worker_name if self.run else "?"))
+        hook(self.run)
+
+    def result(self, timeout=None):
+        self._wait(timeout)
+        return super().result(timeout if self.done() or timeout is not None else 0)
+
+    def exception(self, timeout=None):
+        self._wait(timeout)
+        return super().exception(timeout if self.done() or timeout is not None else 0)
 
 
 class ExecRun:
@@ -60,7 +90,9 @@ class ExecRun:
         self.world = world
         self.worker_name = worker_name
         self.adapter = adapter
-        self.future = concurrent.futures.Future()
+        self.future = HarnessFuture()
+        self.future.world = world
+        self.future.run = self
         self.loop = None
         self.task = None
         self.state = "submitted"
@@ -74,7 +106,9 @@ class ExecRun:
 
     def _run(self, before=None):
         prev = self.world.clock.current
+        prev_run = self.world.current_run
         self.world.clock.current = self.worker_name
+        self.world.current_run = self
         asyncio.set_event_loop(self.loop)
         try:
             if before:
@@ -102,6 +136,7 @@ class ExecRun:
         finally:
             asyncio.set_event_loop(None)
             self.world.clock.current = prev
+            self.world.current_run = prev_run
 
     def resume(self, action):
         self._run(action)
@@ -127,7 +162,7 @@ class FakeEs:
         w = self.world
         loop = asyncio.get_running_loop()
         fut = loop.create_future()
-        req = {"client": self.client_id, "path": path, "t_issue": w.clock.now, "fut": fut, "n": len(w.reqlog)}
+        req = {"client": self.client_id, "path": path, "t_issue": w.clock.now, "fut": fut, "n": len(w.reqlog), "run": w.current_run}
         w.reqlog.append({"client": self.client_id, "path": path, "t": w.clock.now})
         if self.client_id in w.pending:
             raise RuntimeError("client %s issued a second concurrent request" % self.client_id)
@@ -260,6 +295,9 @@ class RaceWorld:
         self.cell_times = {}  # (client, task id) -> [virtual start, virtual end] of the executor coroutine
         self.timed_paths = {"/_t/%d" % t["id"] for e in scn["sched"] for t in e["tasks"] if t["reqs"] == TIMED}
         self.cell_override = {}  # client -> "failed" | "aband": coroutines that died with a failing executor / a dead worker
+        self.exec_all = []  # every executor ever submitted, in order
+        self.current_run = None
+        self.block_hook = None  # called as hook(run) when a handler waits for a running executor (see HarnessFuture)
         self.param_fault = None  # (task id, client_index_in_task) whose parameter source raises on the next call
         self._patches = []
         world = self
@@ -349,14 +387,38 @@ class RaceWorld:
         for obj, attr, old in reversed(self._patches):
             setattr(obj, attr, old)
         self._patches = []
-        for run in self.exec_runs.values():
+        # Abandoned executor coroutines (dead worker, failed executor, race left unfinished) are disposed of HERE and NOW, with no
+        # current event loop: left to the garbage collector, their `finally` blocks (AsyncIoAdapter.run: `await
+        # asyncio.get_event_loop().shutdown_asyncgens()`) would run at some collection-dependent moment of a LATER race and
+        # shut down the async generators of whatever loop is current then (an eternal task's schedule ends silently).
+        asyncio.set_event_loop(None)
+        tasks = [t for grp in self.keepalive for t in grp]
+        for run in (self.exec_all or list(self.exec_runs.values())):
             if run.loop is not None and not run.loop.is_closed():
                 try:
-                    for t in asyncio.all_tasks(run.loop):
-                        t.cancel()
+                    tasks.extend(asyncio.all_tasks(run.loop))
+                except Exception:  # pylint: disable=broad-except
+                    pass
+        seen = set()
+        for t in tasks:
+            if id(t) in seen or t.done():
+                continue
+            seen.add(id(t))
+            try:
+                t.get_context().run(t.get_coro().close)
+            except BaseException:  # pylint: disable=broad-except
+                pass  # "coroutine ignored GeneratorExit", RallyError from the executor's except clause, ...
+        self.keepalive = []
+        for run in (self.exec_all or list(self.exec_runs.values())):
+            if run.loop is not None and not run.loop.is_closed():
+                try:
                     run.loop.close()
                 except Exception:  # pylint: disable=broad-except
                     pass
+        del tasks
+        import gc
+
+        gc.collect()
         self.clock.uninstall()
 
     # ---- bootstrap up to start_benchmark (deterministic prefix, not part of the explored schedule)
@@ -416,7 +478,8 @@ class RaceWorld:
     def enabled(self):
         res = list(self.sim.enabled())
         for wn, run in self.exec_runs.items():
-            if run.state == "submitted" and self.sim.actors[wn].alive:
+            # Worker.pool has ONE thread: a submitted executor starts only when no earlier one of this worker is still running
+            if run.state == "submitted" and self.sim.actors[wn].alive and not any(r.state == "running" and r.worker_name == wn for r in self.exec_all):
                 res.append(("exec_start", wn))
         for c in sorted(self.pending):
             res.append(("req", c))
@@ -439,8 +502,7 @@ class RaceWorld:
                     # requests of a time-period based task take time, so that the period is over after a few of them
                     service_time = max(service_time, 0.5)
             self.clock.advance_to(self.clock.now + service_time)
-            wn = self.worker_of_client(c)
-            run = self.exec_runs[wn]
+            run = req.get("run") or self.exec_runs[self.worker_of_client(c)]  # the executor that issued it (a worker may have submitted another one since)
             res = outcome if outcome is not None else {}
             run.resume(lambda: req["fut"].set_result(res))
             return decision
@@ -514,7 +576,7 @@ class RaceWorld:
             exc = RuntimeError("verif runner failure")
         req = self.pending.pop(c)
         self.clock.advance_to(self.clock.now + service_time)
-        run = self.exec_runs[self.worker_of_client(c)]
+        run = req.get("run") or self.exec_runs[self.worker_of_client(c)]
         self.cell_override[c] = "failed"
         run.resume(lambda: req["fut"].set_result(exc))
 
